@@ -89,7 +89,8 @@ impl Check for C14 {
         }
     }
     fn generate(&self, seed: u64, index: u64) -> J {
-        scenario(seed, index).to_json()
+        // One run in 40 is repeated through the shipped binary with a real pipe (world B)
+        scenario(seed, index).to_json().set("world_b", index % 40 == 7)
     }
     fn fixed_scenarios(&self, _tier: Tier) -> Vec<J> {
         // The undocumented `sudo` command (known finding): one deterministic probe
@@ -194,6 +195,11 @@ impl Check for C14 {
             }
         }
         report.log_hash ^= fnv(&hash);
+
+        // ----- world-B cross-check: the shipped binary, --command argument and a real pipe -----
+        if scenario.get_bool("world_b").unwrap_or(false) && report.violations.is_empty() {
+            cross_check_world_b(&scn, &base, &mut report);
+        }
         report
     }
 
@@ -244,5 +250,111 @@ impl Check for C14 {
             "fault:eof_script",
             "fault:separator_mix",
         ]
+    }
+}
+
+/// Deliver the script to the real `lace debug` process through --command, a real pipe, and a
+/// split of both; all deliveries must agree with each other and with the in-process session
+/// (exit status, program output on stdout, minimal-mode stderr).
+fn cross_check_world_b(scn: &DebugScenario, base: &crate::world_a::Outcome, report: &mut Report) {
+    use crate::session::deliver;
+    use crate::world_b::{run_lace, Run, Scratch};
+    let scratch = Scratch::new("c14");
+    let asm = scratch.path("p.asm");
+    if std::fs::write(&asm, scn.program.render()).is_err() {
+        return;
+    }
+    let expected_status = match &base.end {
+        End::Returned => Some(0),
+        End::Exit(code) => Some(*code),
+        End::Panic(_) => Some(101),
+        _ => None,
+    };
+    let n = scn.script.len();
+    let deliveries = [
+        (Transport::Arg, 0u64, "argument"),
+        (Transport::Stdin, scn.sep_seed, "pipe"),
+        (Transport::Split(n / 2), scn.sep_seed ^ 0x55, "split"),
+    ];
+    let mut first: Option<(Vec<u8>, Vec<u8>, String)> = None;
+    for (transport, sep_seed, name) in deliveries {
+        let d = deliver(&scn.script, &transport, sep_seed);
+        let mut args: Vec<std::ffi::OsString> = vec!["debug".into(), asm.clone().into_os_string()];
+        if scn.minimal {
+            args.push("--minimal".into());
+        }
+        if scn.stack {
+            args.push("-f".into());
+            args.push("stack".into());
+        }
+        if let Some(arg) = &d.arg {
+            args.push("--command".into());
+            args.push(arg.into());
+        }
+        let p = run_lace(
+            &scratch,
+            &Run {
+                args,
+                cwd: &scratch.dir,
+                stdin: &d.stdin,
+                plan: None,
+                watch: None,
+                rlimit_fsize: None,
+            },
+        );
+        report.count("processes", 1);
+        report.hit(&format!("fault:real_process_delivery_{}", name));
+        // Everything after the `Running` line is the session (the lines before name the file)
+        let cut = |out: &[u8]| -> Vec<u8> {
+            let marker = b"Running emitted binary\n";
+            match out.windows(marker.len()).position(|w| w == marker) {
+                Some(at) => {
+                    let rest = &out[at + marker.len()..];
+                    let done = b"   Completed target ";
+                    match rest.windows(done.len()).rposition(|w| w == done) {
+                        Some(end) => rest[..end].to_vec(),
+                        None => rest.to_vec(),
+                    }
+                }
+                None => out.to_vec(),
+            }
+        };
+        let stdout = cut(&p.stdout);
+        let label = p.label();
+        if let Some(status) = expected_status {
+            if p.status != Some(status) || p.hang {
+                report.violations.push(Violation::new(
+                    ID,
+                    format!("C14/world-b/{}/status", name),
+                    format!("real process ended with {}, the in-process session with {}", label, base.end.label()),
+                ));
+                return;
+            }
+            if stdout != base.stdout {
+                report.violations.push(Violation::new(
+                    ID,
+                    format!("C14/world-b/{}/stdout", name),
+                    format!(
+                        "stdout of the real process {:?} differs from the in-process session {:?}",
+                        String::from_utf8_lossy(&stdout).chars().take(80).collect::<String>(),
+                        String::from_utf8_lossy(&base.stdout).chars().take(80).collect::<String>()
+                    ),
+                ));
+                return;
+            }
+        }
+        match &first {
+            None => first = Some((stdout, p.stderr.clone(), label)),
+            Some((out0, err0, label0)) => {
+                if &label != label0 || &stdout != out0 || (scn.minimal && &p.stderr != err0) {
+                    report.violations.push(Violation::new(
+                        ID,
+                        format!("C14/world-b/{}/differs-from-argument", name),
+                        format!("delivery {} through the real process differs from the --command delivery ({} vs {})", name, label, label0),
+                    ));
+                    return;
+                }
+            }
+        }
     }
 }
